@@ -158,6 +158,10 @@ func c05(c *ctx) {
 					sc := mkScenario(key, side, v, fs, rchunks[(pos+max)%len(rchunks)], 64)
 					sc.Max = max
 					t.run(sc)
+					// the size limit is independent of the header check
+					sk := mkScenario(key+"/skip", side, v, fs, rchunks[(pos+max)%len(rchunks)], 64)
+					sk.Max, sk.Skip = max, true
+					t.run(sk)
 				}
 			}
 		}
@@ -180,7 +184,9 @@ var utf8Samples = []struct {
 	{"f5", []byte{0xf5, 0x80, 0x80, 0x80}}, {"ff", []byte{'o', 'k', 0xff}}, {"lone80", []byte{0x80}}, {"loneBF", []byte{'x', 0xbf, 'y'}},
 	{"trunc3", []byte{'o', 'k', 0xe2, 0x82}}, {"trunc4", []byte{0xf0, 0x9f, 0x98}}, {"trunc2", []byte{0xc3}},
 	{"bad2nd", []byte{0xe2, 0x28, 0xa1}}, {"bad3rd", []byte{0xe2, 0x82, 0x28}}, {"bad4th", []byte{0xf0, 0x9f, 0x98, 0x28}},
-	{"goodthenbad", []byte{0xe2, 0x82, 0xac, 0xed, 0xa0, 0x80, 'z'}}, {"long", append([]byte("κόσμε-"), append(asciiPay(20, 0), []byte("-𝄞")...)...)},
+	{"goodthenbad", []byte{0xe2, 0x82, 0xac, 0xed, 0xa0, 0x80, 'z'}},
+	{"lead2run8", append(append([]byte{0xc3}, []byte("abcdefgh")...), 0xa9)}, {"lead3run16", append(append([]byte{0xe2, 0x82}, []byte("abcdefghijklmnop")...), 0xac)},
+	{"run8ok", []byte("abcdefgh\xc3\xa9ijklmnop")}, {"lead4run7", append(append([]byte{0xf0, 0x9f}, []byte("abcdefg")...), 0x98, 0x80)}, {"long", append([]byte("κόσμε-"), append(asciiPay(20, 0), []byte("-𝄞")...)...)},
 }
 
 func c07(c *ctx) {
@@ -299,6 +305,18 @@ func c07u(c *ctx) {
 				}
 			}
 		}
+	}
+	// an unfinished sequence, an ASCII run of every length 0..17, then the missing continuation bytes
+	for _, lead := range [][]byte{{0xc3}, {0xe2, 0x82}, {0xf0, 0x9f, 0x98}, {0xe2}} {
+		for run := 0; run <= 17; run++ {
+			for _, tail := range [][]byte{{0xa9}, {0xac}, {0x80}, {}} {
+				in := append(append(append([]byte("x"), lead...), asciiPay(run, run)...), tail...)
+				emit(in, fmt.Sprintf("run/%x/%d/%x", lead, run, tail))
+			}
+		}
+	}
+	for run := 0; run <= 33; run++ {
+		emit(append(asciiPay(run, 1), 0xc3, 0xa9, 'z'), fmt.Sprintf("asciirun/%d", run))
 	}
 	for _, s := range utf8Samples {
 		emit(s.b, "sample/"+s.name)
